@@ -5,6 +5,8 @@
 //! trusted: BlockHash is an opaque identity (u64 stand-in; equality is identity, hash collisions excluded); Work / Target / Header are stubs whose ==, +, <, > follow the PartialEqSpecImpl/AddSpecImpl/PartialOrdSpecImpl models declared here; Header::work()/target() and Target::*_transition_threshold* are external_body with unconstrained results; BlockSourceError::persistent is an external_body constructor
 //! trusted: HeaderCache::look_up returns a well-formed header of the requested hash (cache invariant, assumed); the Poll implementation is instantiated (R5) by a stub Poller whose look_up_previous_header returns a header that passed check_builds_on against `header` (that is what ChainPoller does)
 //! trusted: listener part: ChainNotifier is instantiated (R5) as Notifier { header_cache, chain_listener: &mut Listener } (the real field is a shared reference to a listener with interior state); the Listener stub carries the ghost field `tip` and the trace preconditions; HeaderCache::{blocks_disconnected, block_connected} external_body (no effect on the listener); Poller::fetch_block returns a block whose hash is the requested header's (ChainPoller validates it); `drain(..).rev()` rewritten into pop() (R6); find_difference_from_header restated as an external_body callee contract in the Notifier impl (it is verified, same text, in the ChainNotifier impl above)
+//! trusted: poller part: `fn f(..) -> impl Future<Output = T> + Send + 'a { async move { B } }` is written `async fn f(..) -> T { B }` (R5, same body); ChainPoller<B, T> is instantiated with a stub block source whose get_best_block / get_header return anything (any source); Header::validate_pow / block_hash are external_body returning the uninterpreted hash_of(header); `.map_err(BlockSourceError::persistent)` gets an explicit closure (R8); Validate::T is spelled out
+//! assume: block sources never report the height u32::MAX (check_builds_on computes previous_header.height + 1 in u32)
 //! assume: the served block tree is consistent: one parent and one height per block hash (parent_of/height_of uninterpreted)
 //! assume: termination of the walk is not claimed (needs a genesis assumption): partial correctness only
 use vstd::prelude::*;
@@ -50,7 +52,7 @@ impl Target {
     #[verifier::external_body] pub fn max_transition_threshold_unchecked(&self) -> Target { unimplemented!() }
 }
 pub uninterp spec fn work_of(h: Header) -> Work;
-pub enum Network { Bitcoin, Testnet, Testnet4, Signet, Regtest }
+#[derive(Clone, Copy)] pub enum Network { Bitcoin, Testnet, Testnet4, Signet, Regtest }
 pub struct BlockSourceError {}
 impl BlockSourceError { #[verifier::external_body] pub fn persistent(msg: &str) -> BlockSourceError { unimplemented!() } }
 //@extract lightning-block-sync/src/lib.rs :: type BlockSourceResult
@@ -386,5 +388,76 @@ impl ValidatedBlockHeader {
 //@end
 }
 
+
+// ---- the canonical poller: validation of what a block source returns (poll.rs) ----
+// the PoW-valid hash of a header (double SHA-256 of its 80 bytes; opaque)
+pub uninterp spec fn hash_of(h: Header) -> BlockHash;
+impl Header {
+    #[verifier::external_body] pub fn validate_pow(&self, required_target: Target) -> (r: Result<BlockHash, ()>) ensures r is Ok ==> r->Ok_0 == hash_of(*self) { unimplemented!() }
+    #[verifier::external_body] pub fn block_hash(&self) -> (r: BlockHash) ensures r == hash_of(*self) { unimplemented!() }
+}
+impl BlockSourceError { #[verifier::external_body] pub fn persistent_unit(e: ()) -> BlockSourceError { unimplemented!() } }
+impl BlockHeaderData {
+//@extract lightning-block-sync/src/poll.rs :: impl Validate for BlockHeaderData :: fn validate
+//@rw R5
+    BlockSourceResult<Self::T>
+//@with
+    BlockSourceResult<ValidatedBlockHeader>
+//@rw R8
+    .map_err(BlockSourceError::persistent)?
+//@with
+    .map_err(|e: ()| -> (o: BlockSourceError) { BlockSourceError::persistent_unit(e) })?
+//@ret r
+//@ensures P C20 a-validated-header-carries-the-proof-of-work-hash-of-its-own-header-and-that-is-the-hash-that-was-asked-for
+    r is Ok ==> r->Ok_0.block_hash == block_hash && block_hash == hash_of(self.header) && r->Ok_0.inner == self,
+//@mutant any_header_accepted_for_the_requested_hash
+    if pow_valid_block_hash != block_hash {
+//@with
+    if false {
+//@end
+}
+// any block source
+pub struct BlockSourceStub {}
+impl BlockSourceStub {
+    #[verifier::external_body] pub async fn get_best_block(&self) -> (r: BlockSourceResult<(BlockHash, Option<u32>)>) { unimplemented!() }
+    #[verifier::external_body] pub async fn get_header(&self, header_hash: &BlockHash, height_hint: Option<u32>) -> (r: BlockSourceResult<BlockHeaderData>)
+        ensures r is Ok ==> r->Ok_0.height < u32::MAX   // assumption on block sources (see header)
+    { unimplemented!() }
+}
+pub struct ChainPoller { pub block_source: BlockSourceStub, pub network: Network }
+//@extract lightning-block-sync/src/poll.rs :: enum ChainTip
+//@end
+impl ChainPoller {
+//@extract lightning-block-sync/src/poll.rs :: impl Poll for ChainPoller :: fn poll_chain_tip
+//@slice R5
+    async move { $body:any }
+//@with
+    async fn poll_chain_tip(&self, best_known_chain_tip: ValidatedBlockHeader) -> BlockSourceResult<ChainTip> { $body }
+//@ret r
+//@ensures P C20 the-poller-reports-a-tip-as-better-only-with-strictly-more-chainwork-and-only-after-validating-it
+    r is Ok ==> match r->Ok_0 {
+        ChainTip::Common => true,
+        ChainTip::Better(t) => t.inner.chainwork.0 > best_known_chain_tip.inner.chainwork.0 && t.block_hash == hash_of(t.inner.header),
+        ChainTip::Worse(t) => t.inner.chainwork.0 <= best_known_chain_tip.inner.chainwork.0 && t.block_hash == hash_of(t.inner.header),
+    },
+//@mutant equal_work_tip_reported_better
+    chain_tip.chainwork > best_known_chain_tip.chainwork
+//@with
+    chain_tip.chainwork >= best_known_chain_tip.chainwork
+//@end
+//@extract lightning-block-sync/src/poll.rs :: impl Poll for ChainPoller :: fn look_up_previous_header
+//@slice R5
+    async move { $body:any }
+//@with
+    async fn look_up_previous_header(&self, header: &ValidatedBlockHeader) -> BlockSourceResult<ValidatedBlockHeader> { $body }
+//@ret r
+//@ensures P C20 the-header-handed-back-as-previous-is-validated-and-really-is-the-parent-one-block-lower
+    r is Ok ==> r->Ok_0.block_hash == header.inner.header.prev_blockhash && r->Ok_0.block_hash == hash_of(r->Ok_0.inner.header) && builds_on(*header, r->Ok_0),
+//@mutant previous_header_not_checked_to_connect
+    header.check_builds_on(&previous_header, self.network)?;
+//@with
+    
+//@end
+}
 }
 fn main() {}
